@@ -1130,8 +1130,11 @@ func runC09(c *Ctx) {
 			// registered cannot be read off GetOrCreate itself
 			c.Undecided("C09.R2", goc, "create only after registering in the in-flight table", createCall, "the in-flight registration is performed by a helper of GetOrCreate; the rule needs it in line (normal form)")
 		} else {
+			// (an arrival whose path claims "entry present, and the channel read from it is nil" is no execution when every
+			// registration stores a fresh channel: v_lru_w.go)
+			impossible := r.impossibleFlightStateW(goc, regsNonNil)
 			c.NoFlow("C09.R2", "create only after registering in the in-flight table", createCall, ir.Flow{Fn: goc, Block: isReg,
-				Target: func(x ssa.Instruction) bool { return x == ssa.Instruction(createCall) }},
+				TargetAt: func(x ssa.Instruction, st *ir.FlowState) bool { return x == ssa.Instruction(createCall) && !impossible(st) }},
 				"the create function can run for a key without this goroutine having registered it as in flight: two creations of one key can overlap")
 		}
 		// registration is conditional on "nobody else is creating": dominated by the not-present edge of the in-flight lookup
